@@ -70,7 +70,7 @@ def correspondence(ctx, cmd, shards, extra, names=('',)):
                 dst[k] = dst.get(k, 0) + v
             elif isinstance(v, list):
                 dst.setdefault(k, [])
-                dst[k] += v[:2]
+                dst[k] += v[:3]
     for r in results:
         merge(total, r.get('stats', {}))
         if 'error' in r:
@@ -122,6 +122,10 @@ def run_core(ctx, spec):
         samples += [str(x)[:600] for x in total.get('samples', [])[:2]]
         for what, detail in broken:
             ctx.broken('correspondence', what, detail)
+        # the case generators double as oracles on the implementation (e.g. accept sequences for C05)
+        for f in (total.get('failures') or []):
+            if isinstance(f, dict) and f.get('property', ctx.id) in spec.get('oracle_props', [ctx.id]):
+                ctx.fail_input(str(f.get('what')), str(f.get('what', '')), dict(f))
     props = spec.get('oracle_props', [ctx.id])
     for cmd, qa, ta in spec.get('oracles', []):
         arglists = [[a.replace('{seed}', str(ctx.seed * 100 + i)) for a in al] for i, al in enumerate(ta if thorough else qa)]
